@@ -11,7 +11,9 @@
 (* Mutant: 1 = client ignores the ids of a second GOAWAY; 2 = client keeps *)
 (* admitting while draining; 3 = server closes the connection when the     *)
 (* final GOAWAY is written; 4 = server stops accepting at the first GOAWAY *)
-(* but announces the highest id seen.                                      *)
+(* but announces the highest id seen; 5 = operateHeaders holds maxStreamMu  *)
+(* only around the id update, so the final GOAWAY can be written between   *)
+(* "id recorded" and "stream registered".                                  *)
 (***************************************************************************)
 EXTENDS Integers, Sequences, FiniteSets, TLC
 
